@@ -906,31 +906,50 @@ class Qcow2Chain(ChainSuite):
         n = 200 if tier == "thorough" else 20
         for _ in range(n):
             depth = rng.randint(2, 4)
-            ncl_bytes = rng.randint(2, 20) * 512
+            extcase = rng.chance(0.5)         # some layers use extended L2 entries (32 sub-clusters with alloc/zero bits)
+            ncl_bytes = rng.randint(2, 20) * 512 if not extcase else rng.randint(20, 96) * 512
             size = ncl_bytes - rng.pick([0, 0, 77])
             layers = []
             for d in range(depth):
-                cb = rng.pick([9, 9, 10])
+                ext = extcase and (d == 0 or rng.chance(0.4))      # the top layer of an ext case is always extended
+                cb = 14 if ext else (rng.pick([11, 12]) if extcase else rng.pick([9, 9, 10]))
                 cs = 1 << cb
                 ncl = (size + cs - 1) // cs
                 hosts = list(range(ncl))
                 rng.shuffle(hosts)
                 cl = {}
-                mode = rng.pick(["rand", "alt", "sparse"])
+                mode = rng.pick(["rand", "alt", "sparse"]) if not ext else "dense"
                 for g in range(ncl):
-                    hold = {"rand": rng.chance(0.5), "alt": (g + d) % 2 == 0, "sparse": rng.chance(0.2)}[mode]
-                    if hold:
+                    hold = {"rand": rng.chance(0.5), "alt": (g + d) % 2 == 0, "sparse": rng.chance(0.2), "dense": rng.chance(0.85)}[mode]
+                    if hold and ext:
+                        if rng.chance(0.5):
+                            alloc = c01.gen_bitmap(rng, rng.pick(c01.BITMAP_PATTERNS)) & 0xFFFFFFFF
+                            zero = c01.gen_bitmap(rng, rng.pick(c01.BITMAP_PATTERNS)) & ~alloc & 0xFFFFFFFF
+                        else:
+                            # every sub-cluster independently unallocated / zero / allocated, in short runs: all nine
+                            # adjacencies (unallocated next to zero next to data ...) occur inside one cluster
+                            alloc = zero = 0
+                            i = 0
+                            while i < 32:
+                                st, run = rng.randrange(3), rng.randint(1, 4)
+                                for k in range(i, min(32, i + run)):
+                                    alloc |= (st == 2) << k
+                                    zero |= (st == 1) << k
+                                i += run
+                        cl[str(g)] = {"t": "ext", "host": (8 + hosts[g]) * cs, "alloc": alloc, "zero": zero, "copied": True}
+                    elif hold:
                         cl[str(g)] = rng.weighted([({"t": "normal", "host": (8 + hosts[g]) * cs, "copied": True}, 5),
                                                     ({"t": "zero_plain"}, 1)])
                 top = d < depth - 1
-                layers.append({"cluster_bits": cb, "ext": False, "datafile": False, "version": 3, "header_length": 104,
+                layers.append({"cluster_bits": cb, "ext": ext, "datafile": False, "version": 3, "header_length": 112 if ext else 104,
                                "l1_size": 1, "l1_offset": cs, "rc_offset": 3 * cs, "l2tabs": {"0": 2 * cs}, "clusters": cl,
                                "backing": ({"size": size} if top else None), "backing_name_off": 200, "size": size,
                                "salt": rng.randrange(1 << 30), "file_size": (8 + ncl + 1) * cs, "data_size": 0})
             reqs = []
             for _ in range(5):
                 a = rng.randrange(0, size)
-                reqs.append([rng.pick(["raw", "bytes"]), a, rng.randint(1, min(size - a, 3000))])
+                reqs.append([rng.pick(["raw", "bytes"]), a, rng.randint(1, min(size - a, 20000 if extcase else 3000))])
+            reqs.append([rng.pick(["raw", "bytes"]), 0, size])          # the whole disk in one request
             out.append({"layers": layers, "size": size, "reqs": reqs})
         return out
 
